@@ -1,4 +1,6 @@
 import Firebolt.Spec.Config
+import Firebolt.Generated.Source
+import Firebolt.Expected.Source
 /-!
 # C13 — Configuration is accepted exactly when it is consistent, and defaults are filled
 
@@ -399,5 +401,17 @@ theorem sibling_duplicate_accepted :
 theorem spine_duplicate_rejected :
     validate tinyRegistry ⟨"s", none, 0, [.mk "a" "t" 1 1 [.mk "a" "t" 1 1 [] none] none]⟩ = .reject := by
   decide
+
+
+/-! ### the functions this model was transcribed from are unchanged (regenerated from /repo on every run) -/
+theorem source_cfgRead : GeneratedSrc.cfgRead = ExpectedSrc.cfgRead := by rfl
+theorem source_cfgValidate : GeneratedSrc.cfgValidate = ExpectedSrc.cfgValidate := by rfl
+theorem source_cfgValidateInternalData : GeneratedSrc.cfgValidateInternalData = ExpectedSrc.cfgValidateInternalData := by rfl
+theorem source_cfgValidateSource : GeneratedSrc.cfgValidateSource = ExpectedSrc.cfgValidateSource := by rfl
+theorem source_cfgValidateUniqueID : GeneratedSrc.cfgValidateUniqueID = ExpectedSrc.cfgValidateUniqueID := by rfl
+theorem source_cfgValidateNode : GeneratedSrc.cfgValidateNode = ExpectedSrc.cfgValidateNode := by rfl
+theorem source_cfgValidateErrorHandler : GeneratedSrc.cfgValidateErrorHandler = ExpectedSrc.cfgValidateErrorHandler := by rfl
+theorem source_cfgSetDefaults : GeneratedSrc.cfgSetDefaults = ExpectedSrc.cfgSetDefaults := by rfl
+theorem source_cfgAssignNodeDefaults : GeneratedSrc.cfgAssignNodeDefaults = ExpectedSrc.cfgAssignNodeDefaults := by rfl
 
 end Firebolt.C13
